@@ -24,6 +24,13 @@ def run_dt(ctx, judge):
             ctx.validate("", "Trace_DataTypes", "Trace_DataTypes.cfg", tp, extra_env={"JUDGE": judge}, stack="64m", heap="3g",
                          label="every day 0001-01-01..9999-12-31, part %d/%d" % (p + 1, parts), sample_n=0)
             os.unlink(tp)
+        # the ticks of a day as a server's TIME value (every 7th tick and the first / last thousand), decoded and re-encoded
+        for p in range(4):
+            tp = os.path.join(ctx.scratch, "dt-tick-%d.ndjson" % p)
+            ctx.run_driver(["dt", "-out", tp, "-seed", ctx.seed, "-everytick", "%d/4/7" % p])
+            ctx.validate("", "Trace_DataTypes", "Trace_DataTypes.cfg", tp, extra_env={"JUDGE": judge}, stack="64m", heap="3g",
+                         label="ticks of a day, part %d/4" % (p + 1), sample_n=0)
+            os.unlink(tp)
     ctx.assumptions += [
         "DataTypes.tla is my transcription of the TDS 5.0 data type layouts (no machine-readable reference offline), self-checked by TLC against day counting and documented limits",
         "values reach TLC in canonical forms made with the standard library (strconv, math/big, math.Float64bits, time.Time accessors, []rune): those conversions are trusted",
